@@ -108,9 +108,11 @@ def build(case):
             elif ev[0] == 'S':
                 d.s += '\\selectlanguage{%s}' % ev[1:]
                 cur[-1] = LT[ev[1:]]
-            elif ev[0] == 'I':
-                # foreign insertion holding one or two formulas
+            elif ev[0] in 'IH':
+                # foreign insertion holding one or two formulas (H: inside a heading, whose argument is expanded twice)
                 lang, n = ev[1:].split(':')
+                if ev[0] == 'H':
+                    d.s += '\\section{Wh '
                 d.s += '\\foreignlanguage{%s}{Wi ' % lang
                 for _ in range(int(n)):
                     body = MENU[k % len(MENU)]
@@ -118,13 +120,15 @@ def build(case):
                     d.formula(body, menu_model(body), k % 2, LT[lang])
                     d.s += ' Wj '
                 d.s += '}'
+                if ev[0] == 'H':
+                    d.s += ' Wk}'
             d.s += ' Wz'
         d.s += '\n'
         return d, {'pack': '*', 'lang': main}, True
     raise ValueError(kind)
 
 
-ML_EVENTS = ['F', 'Sgerman', 'Senglish', 'Srussian', 'Sfrench', 'Igerman:1', 'Irussian:2', 'Ienglish:1']
+ML_EVENTS = ['F', 'Sgerman', 'Senglish', 'Srussian', 'Sfrench', 'Igerman:1', 'Irussian:2', 'Ienglish:1', 'Hrussian:1', 'Hgerman:2']
 
 
 class C10:
@@ -146,20 +150,16 @@ class C10:
                 'ml_events': ML_EVENTS, 'ml_max_events': 4 if tier == 'quick' else 5}
 
     def cases(self, tier, seed):
-        vis = [i for i, a in enumerate(ATOMS) if a[1] != 'p']
-        pun = [i for i, a in enumerate(ATOMS) if a[1] == 'p']
+        allat = list(range(len(ATOMS)))
         for k in (1, 2, 3):
-            for c in itertools.product(vis, repeat=k):
+            for c in itertools.product(allat, repeat=k):
                 if not any(ATOMS[i][1] == 'v' for i in c):
                     continue
-                for lang in (('en', 'de', 'ru') if k < 3 or tier != 'quick' else ('en',)):
+                for li, lang in enumerate(('en', 'de', 'ru')):
+                    if k == 3 and tier == 'quick' and li != sum(c) % 3:
+                        continue
                     for delim in (0, 1):
                         yield ['body', list(c), delim, lang]
-                if k < 3:
-                    for p in pun:
-                        for delim in (0, 1):
-                            yield ['body', list(c) + [p], delim, 'en']
-                            yield ['body', list(c) + [p], delim, 'ru']
         nmax = 3 if tier == 'quick' else 4
         for n in range(1, nmax + 1):
             for ctxs in itertools.product(range(len(CONTEXTS)), repeat=n):
@@ -170,7 +170,7 @@ class C10:
         emax = 4 if tier == 'quick' else 5
         for n in range(1, emax + 1):
             for evs in itertools.product(ML_EVENTS, repeat=n):
-                if sum(e == 'F' or e[0] == 'I' for e in evs) < 2:
+                if sum(e == 'F' or e[0] in 'IH' for e in evs) < 2:
                     continue
                 for main in ('en-GB', 'de-DE'):
                     yield ['ml', list(evs), main]
